@@ -253,7 +253,7 @@ class ThrRunner:
                     if 0 <= kk < len(self.created):
                         o["clock"] = max(CLOCK.instant, inst_of(self.created[kk].datetime) + delta)
                     else:
-                        o["clock"] = CLOCK.instant + abs(delta)
+                        o["clock"] = CLOCK.instant + min(abs(delta), core.DAY)
                 CLOCK.instant = o["clock"]
                 self.cur = {
                     "invoked": [],
